@@ -3244,15 +3244,163 @@ func c13PrefixInsideKey(r *core.Run, rule, rel string) {
 		r.Unres(rule, rel+".IndexQuery.FetchCollection", "missing")
 		return
 	}
-	n := 0
-	for _, f2 := range p.Scope(fc) {
-		var sepPos []ssa.Value
+	scope := p.Scope(fc)
+	sepOf := map[*ssa.Function][]ssa.Value{}
+	for _, f2 := range scope {
 		for _, c := range core.Calls(f2) {
 			if cal := c.Common().StaticCallee(); cal != nil && (cal.String() == "bytes.LastIndexByte" || cal.String() == "bytes.LastIndex") && c.Value() != nil {
-				sepPos = append(sepPos, c.Value())
+				sepOf[f2] = append(sepOf[f2], c.Value())
 			}
 		}
-		if len(sepPos) == 0 {
+	}
+	// ... and the position handed back by a helper that searched for it (sep, err := separatorIndex(k))
+	for changed, round := true, 0; changed && round < 3; round++ {
+		changed = false
+		for _, f2 := range scope {
+			for _, c := range core.Calls(f2) {
+				cal := c.Common().StaticCallee()
+				if cal == nil || len(sepOf[cal]) == 0 || c.Value() == nil || cal == f2 {
+					continue
+				}
+				for _, ret := range core.Returns(cal) {
+					for i, rv := range ret.Results {
+						isSep := false
+						for _, src := range phiSources(rv) {
+							for _, sp := range sepOf[cal] {
+								if core.Strip(src.V) == sp {
+									isSep = true
+								}
+							}
+						}
+						if !isSep {
+							continue
+						}
+						var got ssa.Value
+						if len(ret.Results) == 1 {
+							got = c.Value()
+						} else if c.Value().Referrers() != nil {
+							for _, rf := range *c.Value().Referrers() {
+								if ex, ok := rf.(*ssa.Extract); ok && ex.Index == i {
+									got = ex
+								}
+							}
+						}
+						if got == nil {
+							continue
+						}
+						dup := false
+						for _, have := range sepOf[f2] {
+							if have == got {
+								dup = true
+							}
+						}
+						if !dup {
+							sepOf[f2] = append(sepOf[f2], got)
+							changed = true
+						}
+					}
+				}
+			}
+		}
+	}
+	// comparesSep: the edge's condition relates a separator position to a non-constant value
+	comparesSep := func(ed edgeCond, seps []ssa.Value) bool {
+		cnd, _ := ed.Norm()
+		bo, ok := cnd.(*ssa.BinOp)
+		if !ok {
+			return false
+		}
+		switch bo.Op {
+		case token.GTR, token.LSS, token.GEQ, token.LEQ:
+		default:
+			return false
+		}
+		for _, sp := range seps {
+			other := ssa.Value(nil)
+			if core.Strip(bo.X) == sp {
+				other = bo.Y
+			} else if core.Strip(bo.Y) == sp {
+				other = bo.X
+			}
+			if other == nil {
+				continue
+			}
+			if _, isConst := other.(*ssa.Const); !isConst {
+				return true
+			}
+		}
+		return false
+	}
+	// a helper that finds the separator decides for its caller: every return of it that is not
+	// behind the comparison reports "no match" (a false bool or a non-nil error)
+	decides := map[*ssa.Function]bool{}
+	for h, seps := range sepOf {
+		if h == fc || h.Parent() != nil {
+			continue
+		}
+		ok, compared := true, false
+		for _, ret := range core.Returns(h) {
+			behind := false
+			for _, ed := range dominatingEdges(ret) {
+				if comparesSep(ed, seps) {
+					behind = true
+					compared = true
+				}
+			}
+			if behind {
+				continue
+			}
+			refuses := false
+			for _, rv := range ret.Results {
+				if isConstBool(rv, false) {
+					refuses = true
+				}
+				if types.TypeString(rv.Type(), nil) == "error" {
+					if c, isC := rv.(*ssa.Const); !isC || !c.IsNil() {
+						refuses = true
+					}
+				}
+			}
+			if !refuses {
+				ok = false
+			}
+		}
+		decides[h] = ok && compared
+	}
+	var fromCall func(v ssa.Value, d int) bool
+	fromCall = func(v ssa.Value, d int) bool {
+		if d > 5 || v == nil {
+			return false
+		}
+		switch x := core.Strip(v).(type) {
+		case *ssa.Call:
+			cal := x.Common().StaticCallee()
+			return cal != nil && decides[cal]
+		case *ssa.Extract:
+			return fromCall(x.Tuple, d+1)
+		case *ssa.BinOp:
+			return fromCall(x.X, d+1) || fromCall(x.Y, d+1)
+		case *ssa.UnOp:
+			return fromCall(x.X, d+1)
+		case *ssa.Phi:
+			for _, e := range x.Edges {
+				if fromCall(e, d+1) {
+					return true
+				}
+			}
+		}
+		return false
+	}
+	n := 0
+	for _, f2 := range scope {
+		hasSep := len(sepOf[f2]) > 0
+		viaHelper := false
+		for _, c := range core.Calls(f2) {
+			if cal := c.Common().StaticCallee(); cal != nil && len(sepOf[cal]) > 0 {
+				viaHelper = true
+			}
+		}
+		if !hasSep && !viaHelper {
 			continue
 		}
 		for _, c := range core.Calls(f2) {
@@ -3263,29 +3411,12 @@ func c13PrefixInsideKey(r *core.Run, rule, rel string) {
 			n++
 			guarded := false
 			for _, ed := range ctxEdges(p, call, fc, 0) {
+				if comparesSep(ed, sepOf[f2]) {
+					guarded = true
+				}
 				cnd, _ := ed.Norm()
-				bo, ok := cnd.(*ssa.BinOp)
-				if !ok {
-					continue
-				}
-				switch bo.Op {
-				case token.GTR, token.LSS, token.GEQ, token.LEQ:
-				default:
-					continue
-				}
-				for _, sp := range sepPos {
-					other := ssa.Value(nil)
-					if core.Strip(bo.X) == sp {
-						other = bo.Y
-					} else if core.Strip(bo.Y) == sp {
-						other = bo.X
-					}
-					if other == nil {
-						continue
-					}
-					if _, isConst := other.(*ssa.Const); !isConst {
-						guarded = true
-					}
+				if fromCall(cnd, 0) {
+					guarded = true
 				}
 			}
 			r.Check(guarded, rule, core.FuncName(f2), "id-taken-only-when-the-prefix-ends-before-the-separator", p.InstrPos(call), "the separator's position is compared with the prefix length before the entry is accepted", "an index entry is accepted without comparing the position of the id separator with the length of the query prefix: a prefix containing the separator byte matches through it into the ids, and values whose key is only a part of the prefix are returned")
